@@ -586,9 +586,107 @@ def correspond_fn_stmts(ctx, corr):
                                            what="function statement `%s`: %s" % (' '.join(toks), msg)))
 
 
+INITS = [None, None, ['=', '1'], ['=', 'a', '+', 'f', '(', '1', ',', '2', ')'], ['=', '{', '1', ',', '2', '}'], ['{', '1', '}'], ['{', '}'],
+         ['=', 'x', '[', '1', ',', '2', ']'], ['{', 'a', ',', '{', 'b', ',', 'c', '}', '}'], ['=', 'nullptr'], ['=', '(', 'a', ',', 'b', ')'], ['=']]
+
+
+def real_stmt_i(text):
+    try:
+        d = parse_string(text)
+    except (impl.CxxParseError, AssertionError, RecursionError):
+        return ('err',)
+    ns = d.namespace
+    if ns.functions or ns.typedefs or ns.classes or ns.using_alias or ns.enums or ns.forward_decls or not ns.variables:
+        return ('other',)
+    out = []
+    flags = None
+    for v in ns.variables:
+        if v.template or len(v.name.segments) != 1:
+            return ('other',)
+        f = (v.constexpr, v.extern, v.inline, v.static)
+        if flags is not None and f != flags:
+            return ('other',)
+        flags = f
+        try:
+            out.append((v.name.segments[0].name, decl.from_real(v.type), None if v.value is None else tuple(t.value for t in v.value.tokens)))
+        except decl.Unrepresentable:
+            return ('other',)
+    return ('ok', flags, out)
+
+
+def correspond_stmts_i(ctx, corr):
+    """variable statements with specifiers AND initialisers: var_stmt_i vs parse_string"""
+    rng = ctx.rng
+    cases = []
+    for _ in range(ctx.scale(800, 16000)):
+        base = ('B', rng.choice(['Foo', 'Bar', 'T']), False, False)
+        pre = [rng.choice(['constexpr', 'extern', 'inline', 'static', 'const', 'volatile']) for _ in range(rng.choice([0, 0, 1, 2]))]
+        toks = pre + [base[1]]
+        n = rng.choice([1, 2, 2, 3])
+        for i in range(n):
+            while True:
+                t = rebase(decl.rand_type(rng, rng.choice([0, 1, 2, 4])), base)
+                if decl.legal(t) and decl.var_ok(t):
+                    break
+            if i:
+                toks.append(',')
+            toks += decl.print_layers(decl.layers(t)[1], ['v%d' % i])
+            init = rng.choice(INITS)
+            if init:
+                toks += init
+        toks.append(';')
+        cases.append((toks, n))
+        if rng.random() < 0.3:
+            mt = c02.mutate(rng, toks[:-1]) + [';']
+            cases.append((mt, mt.count(',') + 1))
+    lines, nms = [], []
+    for toks, n in cases:
+        names = decl.Names()
+        lines.append([91, n] + decl.enc_tokens(toks, names))
+        nms.append(names)
+    outs = run_driver(lines)
+    for (toks, n), o, names in zip(cases, outs, nms):
+        corr.cases += 1
+        if o[0] == 0:
+            rest, k = o[1], o[2]
+            fl = [bool(x) for x in o[3:12]]
+            i = 12
+            items = []
+            for _ in range(k):
+                ln = o[i + 1]
+                t, _j = decl.dec_type(o, i + 2, names)
+                j = i + 2 + ln
+                if o[j] == 0:
+                    val, j = None, j + 1
+                else:
+                    cnt = o[j + 1]
+                    val = tuple(names.rev[o[j + 2 + 2 * q + 1]] if o[j + 2 + 2 * q + 1] else impl.TT[o[j + 2 + 2 * q]] for q in range(cnt))
+                    j = j + 2 + 2 * cnt
+                items.append((names.rev.get(o[i], '?'), t, val))
+                i = j
+            m = ('ok', (fl[2], fl[3], fl[4], fl[5]), items, rest)
+        else:
+            m = ('err', o[1])
+        r = real_stmt_i(' '.join(toks))
+        key = "stmt_i:" + (m[0] if m[0] == 'ok' else 'err%d' % m[1]) + "/" + r[0]
+        corr.dist[key] = corr.dist.get(key, 0) + 1
+        msg = None
+        if m[0] == 'ok' and m[3] == 0:
+            if r[0] == 'err':
+                msg = "model decodes the statement but the implementation rejects it"
+            elif r[0] == 'ok' and (r[1], r[2]) != (m[1], m[2]):
+                msg = "model %s %s; implementation %s %s" % (m[1], m[2], r[1], r[2])
+        elif m[0] == 'err' and m[1] in (1, 2, 3) and r[0] == 'ok':
+            msg = "model rejects (code %d) but the implementation reports %s" % (m[1], r[2])
+        if msg:
+            corr.disagreements.append(dict(case=dict(kind='corr-stmt-i', tokens=toks, n=n), model=str(m)[:300], impl=str(r)[:300],
+                                           what="variable statement `%s`: %s" % (' '.join(toks), msg)))
+
+
 def correspond(ctx):
     corr = Corr()
     rng = ctx.rng
+    correspond_stmts_i(ctx, corr)
     correspond_fn_stmts(ctx, corr)
     correspond_stmts(ctx, corr)
     correspond_fns(ctx, corr)
